@@ -164,6 +164,52 @@ def judge_shorthands(thorough):
                 viol.append((name, ta, tb, bad))
             else:
                 tally[f"{name}:ok"] += 1
+    # columns of OTHER declared types than the verification table has (Uuid, Numeric, Enum, Interval, Text, BigInteger, Date / DateTime / Time): a literal compared with a
+    # column stays a bound parameter whatever the column's type, on Core and ORM, compiled for SQLite and for PostgreSQL
+    import sqlalchemy as _sa
+    from sqlalchemy.dialects import sqlite as _dl_sqlite, postgresql as _dl_pg
+    from sqlalchemy.orm import declarative_base as _decl
+    from odata_query.sqlalchemy import apply_odata_core as _core, apply_odata_query as _orm
+    cols = lambda: [_sa.Column("id", _sa.Integer, primary_key=True), _sa.Column("uid", _sa.Uuid), _sa.Column("uid_s", _sa.Uuid(as_uuid=False)), _sa.Column("amount", _sa.Numeric(10, 2)),
+                    _sa.Column("kind", _sa.Enum("a", "b", name="kind")), _sa.Column("span", _sa.Interval), _sa.Column("txt", _sa.Text), _sa.Column("big", _sa.BigInteger),
+                    _sa.Column("day", _sa.Date), _sa.Column("at", _sa.DateTime), _sa.Column("tm", _sa.Time), _sa.Column("uni", _sa.Unicode(20))]
+    ztab = _sa.Table("dev", _sa.MetaData(), *cols())
+    Base = _decl()
+    Dev = type("Dev", (Base,), dict({"__tablename__": "dev"}, **{c.name: c for c in cols()}))
+    G1, G2, G3 = "01234567-89ab-cdef-0123-456789abcdef", "aaaaaaaa-bbbb-cccc-dddd-eeeeeeeeeeee", "6c0e37e3-e856-45ee-bd58-484b11882c67"
+    TYPED = [("uid eq {}", G1, G2), ("{} eq uid", G1, G3), ("uid ne {}", G2, G3), ("uid in ({}, " + G3 + ")", G1, G2), ("uid_s eq {}", G1, G2), ("uid eq '{}'", G1, G2), ("not (uid eq {})", G1, G2),
+             ("amount gt {}", "1.5", "7373.25"), ("amount eq {}", "424242", "5"), ("kind eq {}", "'a'", "'b'"), ("kind in ({}, 'b')", "'a'", "'zzq'"), ("txt eq {}", "'alpha_sentinel'", "'x'' OR 1=1 --'"),
+             ("big eq {}", "9223372036854775807", "6"), ("day eq {}", "2020-01-01", "1999-12-31"), ("at ge {}", "2020-01-01T10:00:00Z", "1999-12-31T23:59:59Z"), ("tm lt {}", "10:00:00", "23:59:59"),
+             ("uni eq {}", "'zzq'", "'50%-50'"), ("span gt {}", "duration'P7D'", "duration'PT1H'"), ("at gt now() sub {}", "duration'P7D'", "duration'PT1H'")]
+    for tmpl, a, b in TYPED:
+        for bname, build in (("sa-core:typed", lambda t: _core(_sa.select(ztab), t)), ("sa-orm:typed", lambda t: _orm(_sa.select(Dev), t))):
+            for dname, dial in (("sqlite", _dl_sqlite.dialect()), ("postgresql", _dl_pg.dialect())):
+                evals[0] += 1
+                outs = []
+                for v in (a, b):
+                    try:
+                        c = build(tmpl.format(v)).compile(dialect=dial)
+                        outs.append(("ok", str(c), [str(x) for x in c.params.values()]))
+                    except Exception as e:  # noqa
+                        outs.append((impl.canon_exc(e), "", []))
+                (oa, sqa, pa), (ob, sqb, pb) = outs
+                ta, tb = tmpl.format(a), tmpl.format(b)
+                if oa != "ok" or ob != "ok":
+                    tally[f"{bname}:refused"] += 1
+                    if (oa == "ok") != (ob == "ok"):
+                        viol.append((f"{bname}/{dname}", ta, tb, f"one variant accepted, the other {oa if oa != 'ok' else ob}"))
+                    continue
+                bad = None
+                if sqa != sqb:
+                    bad = "compiled SQL differs between the two literal assignments"
+                for v, sq in ((a, sqa), (b, sqb)):
+                    core = v.strip("'").replace("duration'", "")
+                    if len(core) > 4 and (core in sq or core.replace("-", "") in sq):
+                        bad = f"value {core!r} appears in the SQL text"
+                if bad:
+                    viol.append((f"{bname}/{dname}", ta, tb, bad))
+                else:
+                    tally[f"{bname}:ok"] += 1
     return viol, tally, kf, evals[0]
 
 def env_switches():
